@@ -425,6 +425,23 @@ pub fn run(run: &Run) {
         check_forms(PROFS[*pi], KINDS[*ki], a, b, l)
     });
     run.prop("histories", run.pick(3_000, 120_000), history_strategy, |h, l| check_history(h, l));
+    // focused histories: ONE profile and ONE operation over a pool of 2..4 related strings (a base, the base with a
+    // character that only fails on a later application / that changes its class, long >= 32-byte variants), 6..14 calls with
+    // immediate repetitions: "succeed, fail late, same again", "fail, succeed, fail" ...
+    let focused = || {
+        (0..4usize, 0..3usize, 0..16usize, super::pipe::strings_for(Prof::Nick), 0usize..12, 0usize..4, proptest::collection::vec((0usize..8, 0usize..8), 6..14)).prop_map(|(pi, ki, fi, base, poison, pad, picks)| {
+            const LATE: [char; 12] = ['\u{3131}', '\u{ffa1}', '\u{fe71}', '\u{ff65}', '\u{1100}', '\u{a8}', '\u{0}', ' ', '\u{ff21}', '\u{5d0}', '\u{200d}', '\u{378}'];
+            let filler = ["", "Guybrush Threepwood, Mighty Pirate of Melee Island ", "abcdefghijklmnopqrstuvwxyzabcdefgh", "\u{e9}\u{6f22}\u{10428}\u{e9}\u{6f22}\u{10428}\u{e9}\u{6f22}\u{10428}\u{e9}\u{6f22}\u{10428}"][pad];
+            let a = format!("{filler}{base}");
+            let mut b: Vec<char> = a.chars().collect();
+            let at = b.len() / 2;
+            b.insert(at, LATE[poison]);
+            let b: String = b.into_iter().collect();
+            let pool = [a.clone(), b.clone(), format!("{b}x"), a.to_uppercase()];
+            picks.into_iter().map(|(x, y)| (pi, ki, fi, pool[x % 4].clone(), pool[y % 4].clone())).collect::<Vec<Step>>()
+        })
+    };
+    run.prop("focused_histories", run.pick(4_000, 150_000), focused, |h, l| check_history(h, l));
     run.par("fingerprint_collision_histories", true, |tid, _n, l| {
         if tid != 0 {
             return;
